@@ -17,6 +17,8 @@ mod c13;
 mod c09;
 mod c10;
 mod c14;
+mod c18;
+mod c19;
 mod enc;
 mod out;
 mod redisx;
@@ -86,6 +88,8 @@ fn main() {
         "C09" => c09::run(&a),
         "C10" => c10::run(&a),
         "C14" => c14::run(&a),
+        "C18" => c18::run(&a),
+        "C19" => c19::run(&a),
         _ => {
             eprintln!("no harness for {}", prop);
             std::process::exit(2);
